@@ -561,6 +561,13 @@ def gen_inc(rng, nrec, exotic=False):
                 b.emit("\n" * pick(rng, b, "blank_before", [0, 0, 1, 2]))
             else:
                 b.layout.setdefault("blank_before", []).append("n/a")
+                # outside a filter region blank lines are junk themselves: the newline that ends
+                # the previous line and the empty lines form one Junk (the whitespace run)
+                if b.n > 0 and b.parts[-1].endswith("\n") and b.junk_start is None \
+                        and pick(rng, b, "blank_junk", [False] * 6 + [True]):
+                    k = rng.randint(1, 2)
+                    b.expected.append(["J", b.n - 1, b.n + k])
+                    b.emit("\n" * k)
             gaps(rng, b, N_GARBAGE, allow_blank=filt)
         while True:
             key = rng.choice(["", "", word(rng) + "_"]) + "".join(
